@@ -62,6 +62,12 @@ inductive PErr
   | evalError
 deriving DecidableEq, Repr
 
+instance {ε α : Type} [DecidableEq ε] [DecidableEq α] : DecidableEq (Except ε α)
+  | .ok a, .ok b => if h : a = b then isTrue (by rw [h]) else isFalse (fun e => h (by cases e; rfl))
+  | .error a, .error b => if h : a = b then isTrue (by rw [h]) else isFalse (fun e => h (by cases e; rfl))
+  | .ok _, .error _ => isFalse (fun e => by cases e)
+  | .error _, .ok _ => isFalse (fun e => by cases e)
+
 inductive Outcome | value | unimportable | error
 deriving DecidableEq, Repr
 
@@ -400,46 +406,63 @@ structure GOut where
   rest : List Str
 deriving DecidableEq, Repr
 
+/-- What one global option does to the loop of `_parse_global_opts`:
+    stop (keeping the argument or — `--interactive`/`--debug`, after which the
+    code `break`s — dropping it), fail with `ValueError`, go on with a new
+    argument mode, or go on after `args.pop(0)` supplied the option's value. -/
+inductive GStep
+  | stop (dropArg : Bool)
+  | err
+  | cont (f : Option AMode → Option AMode)
+  | contPop (k : Str → Option (Option AMode → Option AMode))
+
+def gstep (arg : Str) : GStep :=
+  let dbgWords := [w "debug", w "pdb", w "ipdb", w "dbg"]
+  let isDbgWord := dbgWords.contains arg
+  if !isDbgWord && !(['-'] : Str).isPrefixOf arg then .stop false
+  else
+    let body := if isDbgWord then w "debug"
+                else if (['-','-'] : Str).isPrefixOf arg then arg.drop 2 else arg.drop 1
+    match partitionEq body with
+    | (name, eq, value) =>
+      let novalue (k : GStep) : GStep := if eq then .err else k
+      if [w "interactive", w "i"].contains name then novalue (.stop true)
+      else if (dbgWords ++ [w "d"]).contains name then novalue (.stop true)
+      else if name = w "verbose" then novalue (.cont id)
+      else if [w "quiet", w "q"].contains name then novalue (.cont id)
+      else if name = w "safe" then novalue (.cont fun _ => some .string)
+      else if [w "arguments", w "argument", w "args", w "arg", w "arg_mode", w "arg-mode", w "argmode"].contains name then
+        if eq then
+          match interpretArgMode value with
+          | none => .err
+          | some am => .cont fun _ => some am
+        else .contPop fun v => (interpretArgMode v).map fun am _ => some am
+      else if [w "output", w "output_mode", w "output-mode", w "out", w "outmode", w "out_mode", w "out-mode", w "o"].contains name then
+        if eq then (if validOutputMode value then .cont id else .err)
+        else .contPop fun v => if validOutputMode v then some id else none
+      else if [w "print", w "pprint", w "silent", w "repr"].contains name then novalue (.cont id)
+      else if name = w "postmortem" then (if validPostmortem value then .cont id else .err)
+      else if [w "no-postmortem", w "np"].contains name then novalue (.cont id)
+      else if [w "add-deprecated-builtins", w "add_deprecated_builtins"].contains name then .cont id
+      else .stop false
+
 /-- The `while args:` loop of `_PyMain._parse_global_opts` restricted to what
-    decides `self.arg_mode` and `self.args` (`.error ()` = ValueError).
-    Note the code `break`s after `--interactive` / `--debug`. -/
+    decides `self.arg_mode` and `self.args` (`.error ()` = ValueError). -/
 def globalOpts : List Str → Option AMode → Except Unit GOut
   | [], m => .ok ⟨m, []⟩
   | arg :: rest, m =>
-    let dbgWords := [w "debug", w "pdb", w "ipdb", w "dbg"]
-    let isDbgWord := dbgWords.contains arg
-    if !isDbgWord && !(['-'] : Str).isPrefixOf arg then .ok ⟨m, arg :: rest⟩
-    else
-      let body := if isDbgWord then w "debug"
-                  else if (['-','-'] : Str).isPrefixOf arg then arg.drop 2 else arg.drop 1
-      match partitionEq body with
-      | (name, eq, value) =>
-        let novalue (k : Except Unit GOut) : Except Unit GOut := if eq then .error () else k
-        if [w "interactive", w "i"].contains name then novalue (.ok ⟨m, rest⟩)
-        else if (dbgWords ++ [w "d"]).contains name then novalue (.ok ⟨m, rest⟩)
-        else if name = w "verbose" then novalue (globalOpts rest m)
-        else if [w "quiet", w "q"].contains name then novalue (globalOpts rest m)
-        else if name = w "safe" then novalue (globalOpts rest (some .string))
-        else if [w "arguments", w "argument", w "args", w "arg", w "arg_mode", w "arg-mode", w "argmode"].contains name then
-          if eq then
-            match interpretArgMode value with
-            | none => .error ()
-            | some am => globalOpts rest (some am)
-          else match rest with
-            | [] => .error ()
-            | v :: rest' => match interpretArgMode v with
-              | none => .error ()
-              | some am => globalOpts rest' (some am)
-        else if [w "output", w "output_mode", w "output-mode", w "out", w "outmode", w "out_mode", w "out-mode", w "o"].contains name then
-          if eq then (if validOutputMode value then globalOpts rest m else .error ())
-          else match rest with
-            | [] => .error ()
-            | v :: rest' => if validOutputMode v then globalOpts rest' m else .error ()
-        else if [w "print", w "pprint", w "silent", w "repr"].contains name then novalue (globalOpts rest m)
-        else if name = w "postmortem" then (if validPostmortem value then globalOpts rest m else .error ())
-        else if [w "no-postmortem", w "np"].contains name then novalue (globalOpts rest m)
-        else if [w "add-deprecated-builtins", w "add_deprecated_builtins"].contains name then globalOpts rest m
-        else .ok ⟨m, arg :: rest⟩
+    match gstep arg with
+    | .stop false => .ok ⟨m, arg :: rest⟩
+    | .stop true => .ok ⟨m, rest⟩
+    | .err => .error ()
+    | .cont f => globalOpts rest (f m)
+    | .contPop k =>
+      match rest with
+      | [] => .error ()
+      | v :: rest' =>
+        match k v with
+        | none => .error ()
+        | some f => globalOpts rest' (f m)
 
 /-! ### identifiers (ASCII part of `is_identifier`; used by the driver and the witnesses) -/
 
@@ -457,5 +480,159 @@ def pyKeywords : List Str :=
 def asciiIdent : Str → Bool
   | [] => false
   | c :: cs => isIdStart c && cs.all isIdCont && !pyKeywords.contains (c :: cs)
+
+/-! ## Specification vocabulary
+
+  Everything below is used only to *state* the theorems of `Pfb.C15.Props`
+  (it is not part of the model of the code): well-formed signatures, the
+  documented command-line forms and their rendering to argv, the property's
+  own reading of an option name, the equivalent Python call of a command
+  line, and the reasons for rejection. -/
+
+/-- value of the last assignment to `k` -/
+def lastOcc : List (Str × α) → Str → Option α
+  | [], _ => none
+  | (k', v) :: r, k =>
+    match lastOcc r k with
+    | some x => some x
+    | none => if k' = k then some v else none
+
+/-- some expression of the call `f(*pos, **kw)` fails to evaluate -/
+def EvalFails (env : Env) (pos : List Expr) (kw : Dict) : Prop :=
+  ∃ e, (e ∈ pos ∨ ∃ k, (k, e) ∈ kw) ∧ ∃ y, evalExpr env e = .error y
+
+/-- What `inspect.getfullargspec` guarantees: parameter names are distinct and
+    `kwonlydefaults` only names keyword-only parameters. -/
+def WF (spec : ArgSpec) : Prop := spec.names.Nodup ∧ ∀ a ∈ spec.kwdefaults, a ∈ spec.kwonly
+
+instance (spec : ArgSpec) : Decidable (WF spec) := by unfold WF; infer_instance
+
+/-- The reasons for which the binding phase may reject, each tied to the
+    condition of the call that makes Python's own binder reject it. -/
+def Reason (env : Env) (spec : ArgSpec) (pos : List Expr) (kw : Dict) (e : PErr) : Prop :=
+  (e = .evalError ∧ EvalFails env pos kw) ∨
+  (e = .bothPosKw ∧ ∃ a ∈ spec.args.take pos.length, dhas kw a = true) ∨
+  (e = .missingRequired ∧ ∃ a ∈ spec.args.drop pos.length, dhas kw a = false ∧ posDefault spec a = false) ∨
+  (e = .missingRequiredKw ∧ ∃ a ∈ spec.kwonly, dhas kw a = false ∧ spec.kwdefaults.contains a = false) ∨
+  (e = .tooManyPos ∧ pos.length > spec.args.length ∧ spec.varargs = false)
+
+/-- the keys of `kw` that the resolution step lets through: parameter names, or anything when `**kw` exists -/
+def KeysOk (spec : ArgSpec) (kw : Dict) : Prop := spec.varkw = true ∨ ∀ p ∈ kw, p.1 ∈ spec.names
+
+/-- `s` is an original argument string: an element of `argv`, the exact text
+    after the first `=` of an element, what stdin held, or `""` (stdin read twice). -/
+def FromArgv (argv : List Str) (stdin : Str) (s : Str) : Prop :=
+  s ∈ argv ∨ (∃ a ∈ argv, ∃ pre, a = pre ++ '=' :: s ∧ '=' ∉ pre) ∨ s = stdin ∨ s = []
+
+/-- two environments that differ at most in the evaluator (`parsable`, `outcome`) -/
+def SameSyntax (e1 e2 : Env) : Prop := e1.isIdent = e2.isIdent ∧ e1.exactFirst = e2.exactFirst
+
+def dd : Str := ['-','-']
+
+/-- the four documented option forms: `--k=v`, `--k v`, `-k=v`, `-k v` -/
+inductive Form | ddEq | ddSp | dEq | dSp
+deriving DecidableEq, Repr
+
+def Form.dashes : Form → Str
+  | .ddEq | .ddSp => ['-','-']
+  | .dEq | .dSp => ['-']
+
+def Form.hasEq : Form → Bool
+  | .ddEq | .dEq => true
+  | .ddSp | .dSp => false
+
+/-- one element of a command line as the user means it -/
+inductive Item
+  | pos (s : Str)
+  | opt (f : Form) (typed : Str) (v : Str)
+  | stdin
+deriving DecidableEq, Repr
+
+def renderItem : Item → List Str
+  | .pos s => [s]
+  | .stdin => [['-']]
+  | .opt f t v => if f.hasEq then [f.dashes ++ t ++ '=' :: v] else [f.dashes ++ t, v]
+
+/-- the argv a command line is typed as; `tail = some r` is a final `-- r…` -/
+def render : List Item → Option (List Str) → List Str
+  | [], none => []
+  | [], some r => dd :: r
+  | it :: its, tail => renderItem it ++ render its tail
+
+/-- **The property's reading of an option name** (independent of the code): the
+    parameter with that name, else the only parameter it is a prefix of, else —
+    when the function takes `**kwargs` — the name itself; otherwise rejected. -/
+def resolveSpec (spec : ArgSpec) (n : Str) : Option Str :=
+  if spec.names.contains n then some n
+  else match spec.names.filter (fun a => n.isPrefixOf a) with
+    | [m] => some m
+    | [] => if spec.varkw then some n else none
+    | _ :: _ :: _ => none
+
+/-- a positional argument in the documented sense: no leading dash, not a help request -/
+def PlainPos (s : Str) : Prop :=
+  (['-'] : Str).isPrefixOf s = false ∧ helpTokens.contains s = false ∧ sourceTokens.contains s = false
+
+/-- an option in one of the documented forms, naming parameter `m` -/
+structure OptOk (env : Env) (spec : ArgSpec) (f : Form) (t v m : Str) : Prop where
+  first : ∃ c t', t = c :: t' ∧ c ≠ '?' ∧ (f.dashes = ['-'] → c ≠ '-')
+  noEq : '=' ∉ t
+  ident : env.isIdent (dashToUnderscore t) = true
+  value : if f.hasEq then v ≠ [] else dd.isPrefixOf v = false
+  resolves : resolveSpec spec (dashToUnderscore t) = some m
+  /-- a bare `--help` / `--h` / `--source` that matches no parameter is the help request, not an option -/
+  notHelp : ¬ (f.hasEq = false ∧
+      (dashToUnderscore t = sHelp ∨ dashToUnderscore t = sH ∨ dashToUnderscore t = sSource) ∧
+      matched spec (dashToUnderscore t) = [])
+
+def ItemOk (env : Env) (spec : ArgSpec) : Item → Prop
+  | .pos s => PlainPos s
+  | .stdin => True
+  | .opt f t v => ∃ m, OptOk env spec f t v m
+
+/-- The hypothesis under which the *unchanged* code reads option names as the
+    property does: no option names a parameter that is a proper prefix of
+    another parameter (D16).  Always true with `fixes/C15-D16.diff`. -/
+def Agrees (env : Env) (spec : ArgSpec) (n : Str) : Prop :=
+  env.exactFirst = true ∨ (n ∈ spec.names → ∀ m ∈ spec.names, n.isPrefixOf m = true → m = n)
+
+/-- what the command line means: positional expressions and keyword assignments in order -/
+def expectScan (spec : ArgSpec) (mode : Mode) : List Item → Str → Scanned
+  | [], _ => ([], [])
+  | .pos s :: r, sin => (.user s mode :: (expectScan spec mode r sin).1, (expectScan spec mode r sin).2)
+  | .stdin :: r, sin => (.user sin .string :: (expectScan spec mode r []).1, (expectScan spec mode r []).2)
+  | .opt _ t v :: r, sin =>
+    ((expectScan spec mode r sin).1,
+     ((resolveSpec spec (dashToUnderscore t)).getD [], .user v mode) :: (expectScan spec mode r sin).2)
+
+def tailLits : Option (List Str) → List Expr
+  | none => []
+  | some r => r.map (fun x => .user x .string)
+
+/-- what the option loop read (for stating results about arbitrary argv) -/
+def callPosOf (env : Env) (spec : ArgSpec) (mode : Mode) (argv : List Str) (stdin : Str) : List Expr :=
+  match scan env spec mode argv stdin none with
+  | .ok (p, _) => p
+  | .error _ => []
+
+def callKwOf (env : Env) (spec : ArgSpec) (mode : Mode) (argv : List Str) (stdin : Str) : Dict :=
+  match scan env spec mode argv stdin none with
+  | .ok (_, occ) => dictOf occ
+  | .error _ => []
+
+/-- The equivalent Python call of a command line: `f(*pos, **kw)` with the
+    positional strings in order and, per parameter, the value of the **last**
+    option naming it (`dictOf` — see `dget_dictOf`). -/
+def callPos (spec : ArgSpec) (mode : Mode) (items : List Item) (tail : Option (List Str)) (stdin : Str) : List Expr :=
+  (expectScan spec mode items stdin).1 ++ tailLits tail
+
+def callKw (spec : ArgSpec) (mode : Mode) (items : List Item) (stdin : Str) : Dict :=
+  dictOf (expectScan spec mode items stdin).2
+
+/-- an option token that is syntactically fine (its name need not resolve) -/
+structure OptSyntax (env : Env) (f : Form) (t : Str) : Prop where
+  first : ∃ c t', t = c :: t' ∧ c ≠ '?' ∧ (f.dashes = ['-'] → c ≠ '-')
+  noEq : '=' ∉ t
+  ident : env.isIdent (dashToUnderscore t) = true
 
 end Pfb.C15
